@@ -39,8 +39,27 @@ def coerce_source():
     return {"test": tests, "loop_body": loops[0], "results": results}
 
 
+def initial_block():
+    """`__array_ufunc__`: every `if` whose body assigns `kwargs["initial"]` — (test, body statements)"""
+    import unyt.array as ua
+
+    fn = inspect.unwrap(ua.unyt_array.__array_ufunc__)
+    t = ast.parse(textwrap.dedent(inspect.getsource(fn))).body[0]
+    out = []
+    for n in ast.walk(t):
+        if isinstance(n, ast.If) and any(
+                isinstance(b, ast.Assign) and isinstance(b.targets[0], ast.Subscript)
+                and getattr(b.targets[0].value, "id", None) == "kwargs"
+                and getattr(b.targets[0].slice, "value", None) == "initial" for b in ast.walk(n)):
+            if any(isinstance(b, ast.If) for b in n.body):
+                continue  # an enclosing `if`: only the innermost one is the block
+            out.append([ast.unparse(n.test), [ast.unparse(b) for b in n.body] + [ast.unparse(b) for b in n.orelse]])
+    return out
+
+
 def generate(X):
     cc = coerce_source()
+    cc["initial_block"] = initial_block()
     text = (
         X.header()
         + "namespace Unyt.Generated\n\n"
@@ -50,6 +69,9 @@ def generate(X):
         + "def coerceLoopBody : List (List Nat) := [" + ", ".join(cps(x) for x in cc["loop_body"]) + "]\n\n"
         + "/-- array.py `_coerce_iterable_units`: every `ret = unyt_array(...)` -/\n"
         + "def coerceResults : List (List Nat) := [" + ", ".join(cps(x) for x in cc["results"]) + "]\n\n"
+        + "/-- array.py `__array_ufunc__`: the block that touches the start value of a reduction — (test, statements) -/\n"
+        + "def initialBlock : List (List Nat × List (List Nat)) := ["
+        + ", ".join(f"({cps(a)}, [" + ", ".join(cps(x) for x in b) + "])" for a, b in cc["initial_block"]) + "]\n\n"
         + "end Unyt.Generated\n"
     )
     X.write_if_changed(os.path.join(X.GEN, "TempSeqSrc.lean"), text)
